@@ -160,6 +160,7 @@ func cmdCheck(args []string) int {
 	noNative := fs.Bool("no-native", false, "skip native validation (debugging only; the check then exits 2)")
 	maxPaths := fs.Int("max-paths", 0, "")
 	preempt := fs.Int("preempt", -1, "preemption bound (-1 unbounded)")
+	solverName := fs.String("solver", "z3", "z3 | z3-new | cvc5")
 	fs.Parse(args)
 	if os.Getenv("VERIF_TIER") != "" && *tier == "quick" {
 		// VERIF_TIER only refines, the command line decides the tier
@@ -216,7 +217,7 @@ func cmdCheck(args []string) int {
 		fmt.Fprintln(os.Stderr, "no harness functions found with prefix", prefix)
 		return 2
 	}
-	cfg := sym.Config{Workers: *workers, MaxPaths: *maxPaths, MaxPreempt: *preempt}
+	cfg := sym.Config{Workers: *workers, MaxPaths: *maxPaths, MaxPreempt: *preempt, SolverName: *solverName}
 	if *tier == "thorough" {
 		cfg.TimeoutMs = 120000
 	}
